@@ -36,6 +36,8 @@ def enc1(values, e, kind):
     if e in ("nd_c", "nd_f", "frame"):
         return np.asarray(values)
     if e == "int":
+        if kind == "r" and all(float(v) in (0.0, 1.0) for v in values) and len(values) % 2:
+            return np.asarray([bool(v) for v in values])  # boolean rewards (a legal encoding of binary rewards)
         if kind == "r" and all(float(v).is_integer() for v in values):
             return np.asarray([int(v) for v in values])
         return np.asarray(values)
